@@ -102,6 +102,67 @@ fn check_seq(acc: &mut Acc, idx: usize, pts: &[IP], full: bool) {
                 let c_i32: Vec<Coord<i32>> = pts.iter().map(|&p| Coord { x: p.0 as i32, y: p.1 as i32 }).collect();
                 results.push(("quick_hull<i32>", guard(|| quick_hull(&mut c_i32.clone()).0.iter().map(|c| (c.x as i64, c.y as i64)).collect())));
             }
+            // far from the origin (integer offsets that keep every coordinate exact: f32 below 2^24, f64 below 2^53): products round, the hull must not change
+            {
+                let (ox, oy): (i64, i64) = (500000, 4650000);
+                let sh: Vec<IP> = pts.iter().map(|p| (p.0 + ox, p.1 + oy)).collect();
+                let exact_sh: Vec<IP> = exact.iter().map(|p| (p.0 + ox, p.1 + oy)).collect();
+                if sh.iter().all(|p| p.0.abs() < (1 << 24) && p.1.abs() < (1 << 24)) {
+                    let c32o: Vec<Coord<f32>> = sh.iter().map(|&p| Coord { x: p.0 as f32, y: p.1 as f32 }).collect();
+                    for (name, r) in [
+                        ("quick_hull<f32> at offset (5e5, 4.65e6)", guard(|| quick_hull(&mut c32o.clone()).0.iter().map(|c| (c.x as i64, c.y as i64)).collect::<Vec<IP>>())),
+                        ("graham_hull<f32> at offset (5e5, 4.65e6)", guard(|| graham_hull(&mut c32o.clone(), false).0.iter().map(|c| (c.x as i64, c.y as i64)).collect::<Vec<IP>>())),
+                    ] {
+                        acc.evals += 1;
+                        match r {
+                            Err(p) => acc.viol(format!("{} panic", name), idx, || json!({"points": format!("{:?}", sh), "panic": p})),
+                            Ok(ring) => {
+                                if nontrivial {
+                                    if let Some(msg) = check_ring(name, &ring, true, &sh, &exact_sh) {
+                                        acc.viol(msg, idx, || json!({"points": format!("{:?}", sh), "got": format!("{:?}", ring), "exact_hull": format!("{:?}", exact_sh)}));
+                                    }
+                                }
+                            }
+                        }
+                    }
+                }
+                let (ox, oy): (i64, i64) = (1 << 50, -(1 << 49));
+                let sh: Vec<IP> = pts.iter().map(|p| (p.0 + ox, p.1 + oy)).collect();
+                let exact_sh: Vec<IP> = exact.iter().map(|p| (p.0 + ox, p.1 + oy)).collect();
+                if pts.iter().all(|p| p.0.abs() < 1000 && p.1.abs() < 1000) {
+                    let c64o: Vec<Coord<f64>> = sh.iter().map(|&p| Coord { x: p.0 as f64, y: p.1 as f64 }).collect();
+                    acc.evals += 1;
+                    match guard(|| quick_hull(&mut c64o.clone()).0.iter().map(|c| (c.x as i64, c.y as i64)).collect::<Vec<IP>>()) {
+                        Err(p) => acc.viol("quick_hull<f64> at offset 2^50 panic".into(), idx, || json!({"points": format!("{:?}", sh), "panic": p})),
+                        Ok(ring) => {
+                            if nontrivial {
+                                if let Some(msg) = check_ring("quick_hull<f64> at offset 2^50", &ring, true, &sh, &exact_sh) {
+                                    acc.viol(msg, idx, || json!({"points": format!("{:?}", sh), "got": format!("{:?}", ring), "exact_hull": format!("{:?}", exact_sh)}));
+                                }
+                            }
+                        }
+                    }
+                }
+                // zero coordinates written as -0.0 (every one / every other one): same points, same hull
+                for pattern in 0..2usize {
+                    let mut k = 0usize;
+                    let mut nz = |v: f64| -> f64 { if v == 0.0 { k += 1; if pattern == 0 || k % 2 == 0 { -0.0 } else { 0.0 } } else { v } };
+                    let cz: Vec<Coord<f64>> = cf.iter().map(|c| Coord { x: nz(c.x), y: nz(c.y) }).collect();
+                    for (name, r) in [("quick_hull<f64> with -0.0 coordinates", guard(|| ring_of_f(&quick_hull(&mut cz.clone())))), ("graham_hull<f64> with -0.0 coordinates", guard(|| ring_of_f(&graham_hull(&mut cz.clone(), false))))] {
+                        acc.evals += 1;
+                        match r {
+                            Err(p) => acc.viol(format!("{} panic", name), idx, || json!({"points": format!("{:?}", cz), "panic": p})),
+                            Ok(ring) => {
+                                if nontrivial {
+                                    if let Some(msg) = check_ring(name, &ring, true, pts, &exact) {
+                                        acc.viol(msg, idx, || json!({"points": format!("{:?}", cz), "got": format!("{:?}", ring), "exact_hull": format!("{:?}", exact)}));
+                                    }
+                                }
+                            }
+                        }
+                    }
+                }
+            }
             // a Rect's hull is the Rect
             if n >= 2 && cf[0].x != cf[1].x && cf[0].y != cf[1].y {
                 let r = Rect::new(cf[0], cf[1]);
